@@ -260,4 +260,41 @@ theorem ddnProbP_full (g : DDNGraph) (T : List Mat) (s a ns vs : List Nat)
   rw [← hs, sel_range s, ← ha, sel_range a] at this
   rw [← hs, ← ha, this]
 
+/-! ## DDNGraph::getIds(feature, j) inverts the row lookup -/
+
+theorem scanDown_spec (st : List Nat) (j aid : Nat) (hlo : st.getD aid 0 ≤ j) : ∀ (top : Nat), aid ≤ top →
+    (∀ k, aid < k → k ≤ top → j < st.getD k 0) → scanDown st j top = aid := by
+  intro top
+  induction top with
+  | zero => intro h _; have : aid = 0 := by omega
+            subst this; rfl
+  | succ t ih =>
+    intro h hhi
+    rcases Nat.eq_or_lt_of_le h with heq | hlt
+    · subst heq
+      have : ¬ j < st.getD (t + 1) 0 := by omega
+      rw [scanDown, if_neg this]
+    · rw [scanDown, if_pos (hhi (t + 1) hlt (Nat.le_refl _))]
+      exact ih (by omega) (fun k h1 h2 => hhi k h1 (by omega))
+
+/-- **getIds(feature, getId(feature, s, a)) = (parentId, actionId)**: the backwards scan over `startIds_` recovers the
+    action block and the offset inside it -/
+theorem getIdsInv_getId (g : DDNGraph) (i : Nat) (s a : List Nat) (hs : Valid g.S s) (ha : Valid g.A a) (hok : ParentsOK g i) :
+    g.getIdsInv i (g.getId i s a) = (parentIdOf g i s a, actionIdOf g i a) := by
+  obtain ⟨l1, u1, _⟩ := getId_block g i s a hs ha hok
+  obtain ⟨hag, hlen, _⟩ := hok
+  have haid : actionIdOf g i a < (g.ps i).features.length := by
+    rw [hlen]; exact (toIndexPartial_spec g.A a _ ha hag).1
+  have hstl : (g.startIds i).length = (g.ps i).features.length + 1 := go_length g.S _ 0
+  have hscan : scanDown (g.startIds i) (g.getId i s a) ((g.startIds i).length - 2) = actionIdOf g i a := by
+    apply scanDown_spec _ _ _ l1 _ (by omega)
+    intro k hk hk2
+    have := go_mono g.S (g.ps i).features 0 k (actionIdOf g i a + 1) (by omega) (by omega)
+    unfold DDNGraph.startIds startIdsOf at u1 ⊢
+    omega
+  unfold DDNGraph.getIdsInv
+  simp only [hscan]
+  rw [getId_eq]
+  simp
+
 end AITB.Factored
